@@ -32,6 +32,7 @@ class Run:
         self.prop, self.tier, self.seed = prop, tier, seed
         self.t0 = time.time()
         self.tmp = tempfile.mkdtemp(prefix="verif-%s-" % prop, dir=os.environ.get("VERIF_TMP", "/var/tmp"))
+        RUNS.append(self)
         self.violations = []      # (what, replay path)
         self.known = []           # (finding id, what)
         self.cov = {"states": 0, "transitions": 0, "traces_validated_against_impl": 0,
@@ -474,9 +475,16 @@ def describe(ev):
                                           json.dumps(dec(ev.get("val")))[:160], r.get("c"))
 
 
+RUNS = []     # every Run of this process (their scratch directories are removed on the way out, whatever happens)
+
 def main_wrap(fn):
+    code = 2
     try:
-        sys.exit(fn())
+        code = fn()
     except Broken as e:
         log("BROKEN:", e)
-        sys.exit(2)
+        code = 2
+    finally:
+        for r in RUNS:
+            shutil.rmtree(r.tmp, ignore_errors=True)
+    sys.exit(code)
